@@ -970,6 +970,15 @@ impl StreamsState {
     }
 }
 
+#[cfg(quinn_rs_quinn_verif)]
+impl StreamsState {
+    /// Verification accessor (read-only): private fields that `streams::verif_hooks` cannot
+    /// otherwise reach: number of queued application events and the per-direction `opened` flags.
+    pub(super) fn verif_private(&self) -> (usize, [bool; 2]) {
+        (self.events.len(), self.opened)
+    }
+}
+
 #[inline]
 pub(super) fn get_or_insert_send(
     max_data: VarInt,
